@@ -22,6 +22,12 @@ LEVEL_TEXT = {
             "After unwind(m): capacity_left() equals the recorded value, the requests that followed m are re-issued and must return the same addresses (while no shrink_to_fit happened), older allocations keep their patterns, younger ones are verified right before they die. All pairs of live markers are compared with the six operators."),
     "C07": ("exploration", "5 C07", "iteration-tagged shadow heap on iteration_allocator<1..5> with block sizes not divisible by N",
             "Allocations are tagged with the iteration they were made in; they are verified immediately before the switch that recycles their region and everything else after it; capacity after a switch must equal the region's empty capacity; the N region capacities must not exceed the block."),
+    "C03": ("fault_enumeration", "5 C03", "upstream failpoint at every call index of a recorded history + requests around the reported maxima, outcome classified by exception type and handler counters",
+            "For each scenario the upstream fails at call k for every k (quick: k <= 12 plus samples); the exception must derive from std::bad_alloc, the matching handler must have run, earlier allocations stay intact (shadow heap), the same request succeeds afterwards, nothing leaks. Requests around max_node_size/max_array_size/max_alignment must throw the right family or return null from try_, never null from throwing functions, and try_ never reaches the upstream."),
+    "C11": ("exploration", "5 C11", "address-range monitor for joint members against the upstream block + release-shape check + exact-fit / one-short requests",
+            "All member addresses of seeded joint layouts are checked to lie behind the object inside its single upstream block, disjoint and aligned; one byte less than needed must throw out_of_fixed_memory; reset/destruction must release the block in one call with its allocation parameters; clones must be equal and independent."),
+    "C20": ("fault_enumeration", "5 C20", "constructor failure injected at every element index, live-object ledger + upstream balance",
+            "Every helper and every joint_array constructor form is run with the k-th element construction throwing, for every k; constructed elements must be destroyed exactly once, memory returned, the exception unchanged, and the allocator (and the joint memory) usable again."),
     "C12": ("exploration", "5 C12", "C01/C05/C15 oracles continued across move construction, move assignment (fresh and used targets) and swap inserted into histories",
             "Moves are inserted at seeded positions; afterwards old pointers are released through the new owner, the moved-from object is destroyed, the target's former blocks must be back at its own block source, the leak handler must stay silent; crashes/hangs/assertion aborts of the moved-from object are violations."),
     "C15": ("exploration", "5 C15", "recording leak handler compared with a model of traits-level net bytes at every destruction",
